@@ -9,6 +9,11 @@
 (* position i mod arity; thorough: every position); plus hand-picked trees *)
 (* with Python-equal twin subtrees for the memoising variants; tier        *)
 (* "random" (-simulate): up to six items anywhere, nested to any depth.    *)
+(* User node classes (C04_UCls: rooted at Expression / AlgebraicLeaf /     *)
+(* Leaf, one or two user levels, with and without expression fields) occur *)
+(* as items and as roots; their trees are run on every stock traversal x   *)
+(* every subset of the handler names on the class's resolution order as    *)
+(* the handlers the user adds to the traversal.                            *)
 (* For every tree it computes the list of                                  *)
 (* traversal configurations to run (mapper family x extra arguments x      *)
 (* visit-answer pattern x renamed leaves) and checks on the model that     *)
@@ -20,11 +25,14 @@
 (*   - the identity / combine contracts are satisfiable (the expected      *)
 (*     result passes them).                                                *)
 (***************************************************************************)
-EXTENDS C04_Walk, Json
+EXTENDS C04_Walk, C04_UCls, Json
 CONSTANT Tier
 VARIABLES tree, budget, nh, pos, inner
 
 H == Hole
+\* an instance of user node class u with open positions for its expression fields
+UItem(u) == UN(u, [i \in 1..UClasses[u].ar |-> H])
+UserItems == [u \in 1..NU |-> UItem(u)]
 NaryRoot == {"Sum", "Product", "BitOr", "BitXor", "BitAnd", "LogOr", "LogAnd", "Min", "Max",
              "Tup", "List", "USum", "Arr", "MV"}
 BinRoot  == {"Quotient", "FloorDiv", "Remainder", "Power", "LShift", "RShift", "Sub"}
@@ -48,6 +56,7 @@ Roots ==
   \cup { Look(H, "attr"), CSE(H), CSEp(H, "pre", "pymbolic_global"),
          Deriv(H, << "x" >>), Deriv(H, << "x", "y" >>),
          Subst(H, << "x" >>, << H >>), Subst(H, << "x", "y" >>, << H, H >>), Subst(H, << >>, << >>) }
+  \cup { UItem(u) : u \in 1..NU }
 
 \* items: one inner node of every kind (its own positions are filled with plain leaves) ...
 InnerItems == <<
@@ -68,7 +77,7 @@ LeafItems == <<
   KV("cplx", 1, 2), KV("npint", 7, 1), KV("npflt", 3, 2), KV("frac", 1, 2), StrE("s"),
   Wild("Wildcard", ""), Wild("DotWildcard", "w"), Wild("StarWildcard", "w"), FunSym, NaNE,
   ULeaf, UVar(""), V("x") >>
-Items == InnerItems \o LeafItems
+Items == InnerItems \o LeafItems \o UserItems
 
 x == V("x")  y == V("y")
 TwinRoots == {
@@ -88,8 +97,20 @@ Init == /\ tree \in Roots \cup TwinRoots
         /\ budget = ItemBudget /\ nh = NHoles(tree) /\ pos = 0 /\ inner = 0
 
 \* quick: item number i goes to root position (i mod nh) + 1 only; thorough: everywhere
-ItemAllowedAt(i, p) == Tier # "quick" \/ (i % nh) + 1 = p
-NoSameConst(s) == s.t = "Const" => \A q \in SeqToSet(Pre(tree)) : q.t = "Const" => q.v # s.v
+\* (quick: user node items below a selection of root kinds only, nothing but plain leaves below
+\* a user node root)
+UserHosts == {"Sum", "Product", "Call", "CallKw", "If", "CSE", "Tup", "List", "Power", "Slice", "Sub"}
+ItemAllowedAt(i, p) ==
+    \/ Tier # "quick"
+    \/ /\ (i % nh) + 1 = p
+       /\ tree.t # "UNode"
+       /\ Items[i].t = "UNode" => tree.t \in UserHosts
+\* objects CPython shares: equal small constants, the empty tuple, equal strings - two
+\* occurrences would be one object and the occurrence numbers could not be told apart
+NoSameConst(s) ==
+    /\ s.t = "Const" => \A q \in SeqToSet(Pre(tree)) : q.t = "Const" => q.v # s.v
+    /\ (s.t = "Tup" /\ Len(s.c) = 0) => \A q \in SeqToSet(Pre(tree)) : ~(q.t = "Tup" /\ Len(q.c) = 0)
+    /\ s.t = "Str" => \A q \in SeqToSet(Pre(tree)) : q.t # "Str"
 FillWith(s, cost) ==
     /\ NoSameConst(s)      \* equal small constants would be the same Python object
     /\ tree' = FillFirst(tree, s)
@@ -118,7 +139,9 @@ AP0 == [a |-> << >>, k |-> << >>]
 AP1 == [a |-> << 1 >>, k |-> << >>]
 AP2 == [a |-> << 1, 2 >>, k |-> << [k |-> "tag", v |-> 7] >>]
 AP3 == [a |-> << >>, k |-> << [k |-> "tag", v |-> 7] >>]
-Cfg(fam, ap, F, R) == [fam |-> fam, a |-> ap.a, k |-> ap.k, F |-> F, R |-> R]
+\* impl: the handlers for user node classes the user's subclass of the traversal adds
+CfgU(fam, ap, F, R, impl) == [fam |-> fam, a |-> ap.a, k |-> ap.k, F |-> F, R |-> R, impl |-> impl]
+Cfg(fam, ap, F, R) == CfgU(fam, ap, F, R, << >>)
 SetToSeq(S) == LET RECURSIVE Go(_) Go(X) == IF X = {} THEN << >>
                                             ELSE LET m == CHOOSE m \in X : TRUE IN << m >> \o Go(X \ {m})
                IN Go(S)
@@ -155,7 +178,22 @@ MoreSet(t) ==
     \cup { Cfg(f, AP1, << >>, SetToSeq(VarNames(t))) : f \in {"ident", "cident"} }
     \cup { Cfg(f, AP1, << >>, << >>) : f \in {"comb", "ccoll", "coll", "cbident"} }
     \cup { Cfg(f, AP3, << >>, << >>) : f \in {"walk", "cident"} }
-ConfigSet(t) == IF Tier = "quick" THEN QuickSet(t) ELSE QuickSet(t) \cup MoreSet(t)
+\* trees with instances of user node classes: every traversal x every set of handlers the user
+\* may add for the classes on their resolution orders (quick: at most one handler, or all);
+\* the callback mapper has no place for user handlers
+UsersOf(t) == { Pre(t)[i].u : i \in { j \in 1..Len(Pre(t)) : Pre(t)[j].t = "UNode" } }
+ImplChoices(t) ==
+    LET U == UNION { UUniverse(u) : u \in UsersOf(t) } IN
+    IF Tier = "quick" THEN { I \in SUBSET U : Cardinality(I) <= 1 \/ I = U } ELSE SUBSET U
+UserSet(t) ==
+         { CfgU(f, AP2, << >>, << >>, SetToSeq(I)) : f \in AllFams \ {"cbident"}, I \in ImplChoices(t) }
+    \cup { CfgU("cbident", AP2, << >>, << >>, << >>) }
+    \cup { CfgU("walk", AP1, << n >>, << >>, SetToSeq(I)) :
+             n \in { i \in 1..Len(Pre(t)) : Pre(t)[i].t = "UNode" }, I \in ImplChoices(t) }
+    \cup { CfgU("ident", AP3, << >>, SetToSeq(LastVar(t)), SetToSeq(I)) : I \in ImplChoices(t) }
+ConfigSet(t) == IF UsersOf(t) # {}
+                THEN (IF Tier = "quick" THEN UserSet(t) ELSE UserSet(t) \cup QuickSet(t))
+                ELSE IF Tier = "quick" THEN QuickSet(t) ELSE QuickSet(t) \cup MoreSet(t)
 
 \* ------------------------------------------------------------------ checked on the model
 \* (one invariant, so that the numbered tree and its configurations are computed once)
@@ -176,10 +214,24 @@ ContractsSatisfiable(t, cs) ==
     /\ CombineWhy(t, ct, FALSE, ContributingLeaves(t)) = ""
     /\ CombineWhy(t, ct, TRUE, { ct[i] : i \in ContributingLeaves(t) }) = ""
 
+\* the transcription of Mapper.__call__ finds the handler the statement names for every user
+\* class in the tree and every set of added handlers - also with the base class's stub
+\* map_algebraic_leaf (which raises) counted as implemented
+UserDispatchOK(t, cs) ==
+    \A u \in UsersOf(t) : \A c \in cs :
+        LET I == SeqToSet(c.impl)  nm == UNames(u) IN
+        /\ UTargetImpl(u, I) = UTarget(u, I)
+        /\ UTarget(u, I) = "unsupported" <=> \A k \in 1..Len(nm) : nm[k] \notin I
+        /\ UTarget(u, I) = "unsupported" =>
+              D!DispatchImpl(ULineage(u), I \cup {"map_algebraic_leaf"}) \in {"unsupported", "map_algebraic_leaf"}
+
 ModelOK == Complete =>
     LET t == Numbered(tree)  cs == ConfigSet(t) IN
     /\ NumberingIsPreorder(t)
     /\ CanonicalWalksAccepted(t, cs)
     /\ ContractsSatisfiable(t, cs)
+    /\ UserDispatchOK(t, cs)
     /\ PrintT(ToJson([tree |-> t, cfgs |-> SetToSeq(cs)]))
+
+ASSUME PrintT(ToJson([uclasses |-> UClassesJson]))
 =============================================================================
